@@ -4,6 +4,7 @@ CONSTANTS
   N = 1
   Cap = 16
   Kinds <- KindsNone
+  Script <- ScriptNone
   GenK = 1
 VIEW View
 INVARIANT Inv_NoLostWake
